@@ -1248,7 +1248,7 @@ func releaseUnderLookups(c *Ctx, im *Impl, n *Node, round int) {
 		return
 	}
 	time.Sleep(150 * time.Millisecond) // the daemon's waiter goroutine and monitor are done
-	nfiles := 1000 + c.Rng.Intn(1000)
+	nfiles := 1000 + rng4.Intn(1000)
 	bulk := filepath.Join(n.UnitDir(unit), "bulk")
 	Must(os.MkdirAll(bulk, 0o700))
 	for i := 0; i < nfiles; i++ {
@@ -1334,7 +1334,10 @@ func releaseUnderLookups(c *Ctx, im *Impl, n *Node, round int) {
 	}
 }
 
+var rng4 *Rng // part 4 runs next to the other parts: its own stream, derived from the seed
+
 func part4(c *Ctx, im *Impl, tmp string) {
+	rng4 = NewRng(c.Seed + 4000)
 	n := newNode(c, filepath.Join(tmp, "n3"), "n3")
 	Must(n.Start())
 	defer func() { n.Stop(); n.KillStrays() }()
@@ -1348,6 +1351,124 @@ func part4(c *Ctx, im *Impl, tmp string) {
 	if !n.Alive() {
 		im.Violate("the daemon died during releases: "+n.ExitState(), "c13-daemon-died", nil)
 	}
+}
+
+// ---------- part 5: commands that ignore SIGINT/SIGTERM ----------
+//
+// "cancelling stops the unit's process": termThenKill sends SIGINT and, after a grace period of
+// 10 s, SIGKILL.  The unit's command ignores SIGINT and SIGTERM (and execs, so that it is one
+// process carrying a unique marker as argv[0]); it is cancelled / released / force-released while
+// Running.  Oracle: within 1.5 s after the reply no live process carries the marker (neither the
+// command nor the runner, whose command line holds the script).
+
+func procsWithMarker(marker string) []int {
+	var out []int
+	ents, _ := os.ReadDir("/proc")
+	for _, e := range ents {
+		pid, err := strconv.Atoi(e.Name())
+		if err != nil || pid == os.Getpid() {
+			continue
+		}
+		b, err := os.ReadFile("/proc/" + e.Name() + "/cmdline")
+		if err != nil || !strings.Contains(string(b), marker) {
+			continue
+		}
+		if running(pid) {
+			out = append(out, pid)
+		}
+	}
+	return out
+}
+
+const graceSeconds = 10 // command.go termThenKill
+
+func ignoringUnit(c *Ctx, im *Impl, cf *CaseFile, n *Node, daemonPids map[int]bool, sub string, k int, mu *sync.Mutex) {
+	marker := fmt.Sprintf("c13ign-%d-%d-%s", os.Getpid(), k, sub)
+	script := fmt.Sprintf("trap '' INT TERM; echo started; exec -a %s sleep 60", marker)
+	ctx := map[string]interface{}{"scenario": "work " + sub + " of a Running unit whose command ignores SIGINT and SIGTERM", "script": script}
+	defer func() {
+		for _, p := range procsWithMarker(marker) {
+			_ = syscall.Kill(p, syscall.SIGKILL)
+		}
+	}()
+	unit, _, err := Submit(n.Sock, map[string]interface{}{"worktype": "sh", "params": shQuote(script)}, []byte("x"), tmo)
+	mu.Lock()
+	defer mu.Unlock()
+	if err != nil {
+		im.Violate("submit failed: "+err.Error(), "c13-submit-failed", ctx)
+		return
+	}
+	mu.Unlock()
+	_, _, pid, ok := waitDisk(n, unit, 5*time.Second, func(st int, det string, pid int) bool { return st == 1 && pid > 0 })
+	started := WaitFor(3*time.Second, func() bool {
+		for _, p := range procsWithMarker(marker) {
+			if b, _ := os.ReadFile(fmt.Sprintf("/proc/%d/cmdline", p)); strings.HasPrefix(string(b), marker) {
+				return true
+			}
+		}
+		return false
+	})
+	t0 := time.Now()
+	reply, rerr := OneShot(n.Sock, map[string]interface{}{"command": "work", "subcommand": sub, "unitid": unit}, time.Duration(graceSeconds+15)*time.Second)
+	took := time.Since(t0)
+	var left []int
+	gone := WaitFor(1500*time.Millisecond, func() bool { left = procsWithMarker(marker); return len(left) == 0 })
+	time.Sleep(200 * time.Millisecond)
+	lines := unitLog(n, unit)
+	mu.Lock()
+	ctx["unit"], ctx["reply"], ctx["reply_after_ms"], ctx["runner_pid"] = unit, reply, took.Milliseconds(), pid
+	if !ok || !started {
+		im.Hist("ignore-sigint:not-reached")
+		return
+	}
+	want := map[string]string{"cancel": `"cancelled"`, "release": `"released"`, "force-release": `"released"`}[sub]
+	if rerr != nil || !strings.Contains(reply, want) {
+		im.Violate(fmt.Sprintf("unit %s: %s of a unit whose command ignores SIGINT answered %q %v after %d ms", unit, sub, reply, rerr, took.Milliseconds()), "c13-cancel-reply", ctx)
+	}
+	if !gone {
+		cmd, _ := os.ReadFile(fmt.Sprintf("/proc/%d/cmdline", left[0]))
+		im.Violate(fmt.Sprintf("unit %s: %d ms after %s was answered (%q, %d ms after the request) process %d of the unit is still alive: %q",
+			unit, 1500, sub, reply, took.Milliseconds(), left[0], strings.ReplaceAll(string(cmd), "\x00", " ")), "c13-process-survives-cancel", ctx)
+	}
+	bad := judgeLog(im, unit, lines, false, sub != "cancel", ctx)
+	cf.Add("CLog "+coqLog(lines, daemonPids), fmt.Sprintf("command ignoring SIGINT, %s, unit %s | %s", sub, unit, strings.Join(fmtLog(lines), " ; ")))
+	if sub != "cancel" {
+		if _, err := os.Stat(n.UnitDir(unit)); err == nil {
+			im.Violate(fmt.Sprintf("unit %s: directory still exists after %s", unit, sub), "c13-release-leaves-directory", ctx)
+		}
+	}
+	// non-trivial: the escalation really happened (the reply had to wait for the grace period)
+	im.Count(fmt.Sprintf("ignore-sigint %s %v", sub, fmtLog(lines)), took >= (graceSeconds-1)*time.Second && bad == 0)
+	im.Hist("ignore-sigint:" + sub)
+	if took >= (graceSeconds-1)*time.Second {
+		im.Hist("ignore-sigint:reply-waited-for-the-grace-period")
+	}
+	if k == 0 {
+		im.Sample(map[string]interface{}{"kind": "command ignoring SIGINT", "op": sub, "reply_after_ms": took.Milliseconds(), "status_writes": fmtLog(lines)})
+	}
+}
+
+func part5(c *Ctx, im *Impl, cf *CaseFile, tmp string) {
+	n := newNode(c, filepath.Join(tmp, "n4"), "n4")
+	Must(n.Start())
+	defer func() { n.Stop(); n.KillStrays() }()
+	daemonPids := map[int]bool{n.Cmd.Process.Pid: true}
+	subs := []string{"cancel", "release", "force-release"}
+	if c.Thorough() {
+		subs = append(subs, subs...)
+		subs = append(subs, subs...)
+	}
+	var mu sync.Mutex
+	var wg sync.WaitGroup
+	for k, sub := range subs {
+		wg.Add(1)
+		go func(k int, sub string) {
+			defer wg.Done()
+			time.Sleep(time.Duration(k*150) * time.Millisecond)
+			ignoringUnit(c, im, cf, n, daemonPids, sub, k, &mu)
+		}(k, sub)
+	}
+	wg.Wait()
 }
 
 func mergeImpl(im, im2 *Impl) {
@@ -1367,7 +1488,7 @@ func mergeImpl(im, im2 *Impl) {
 
 func runC13(c *Ctx) {
 	im := NewImpl("C13", c.Seed, c.Tier)
-	im.Rule = "histories: per unit a bash script of 1-4 echo/sleep steps (0-1.3 s, exit 0 or 1-5, 20% with stdin held open) and 1-4 concurrent clients with 1-6 timed commands each (status, list, cancel, release, force-release, results, the same on unknown IDs, and again after the unit's horizon), 8-10 units at a time; non-trivial = daemon AND runner wrote the status record and at least one client command was answered. races: runner stopped/continued around cancel; daemon restart with a live runner. release under lookups: finished units with 1000-2000 extra files are released (every third by force-release) while 2-3 sessions ask for the unit by ID (work status, JSON work list with unitid); non-trivial = at least 5 such requests overlapped the release. ids: 1-6 concurrent AllocateUnit calls on a scripted candidate stream with collisions against the index, stray directories and directories of failed allocations; non-trivial = at least 2 concurrent allocations or a colliding candidate. distinct by full spec + status-write sequence."
+	im.Rule = "histories: per unit a bash script of 1-4 echo/sleep steps (0-1.3 s, exit 0 or 1-5, 20% with stdin held open) and 1-4 concurrent clients with 1-6 timed commands each (status, list, cancel, release, force-release, results, the same on unknown IDs, and again after the unit's horizon), 8-10 units at a time; non-trivial = daemon AND runner wrote the status record and at least one client command was answered. races: runner stopped/continued around cancel; daemon restart with a live runner. release under lookups: finished units with 1000-2000 extra files are released (every third by force-release) while 2-3 sessions ask for the unit by ID (work status, JSON work list with unitid); non-trivial = at least 5 such requests overlapped the release. commands ignoring SIGINT/SIGTERM: cancelled, released and force-released while Running; non-trivial = the reply had to wait for the 10 s grace period. ids: 1-6 concurrent AllocateUnit calls on a scripted candidate stream with collisions against the index, stray directories and directories of failed allocations; non-trivial = at least 2 concurrent allocations or a colliding candidate. distinct by full spec + status-write sequence."
 	cf := &CaseFile{Dir: c.Out, Prop: "C13", Imports: []string{"Model.WorkLife"}, CaseType: "wl_case", CheckFn: "wl_check", PerShard: 60}
 	tmp, err := os.MkdirTemp("", "c13-")
 	Must(err)
@@ -1382,15 +1503,22 @@ func runC13(c *Ctx) {
 	cf2 := &CaseFile{}
 	var wg sync.WaitGroup
 	im4 := NewImpl("C13", c.Seed, c.Tier)
-	part4(c, im4, tmp) // uses c.Rng: before the concurrent parts
-	wg.Add(1)
+	im5 := NewImpl("C13", c.Seed, c.Tier)
+	cf5 := &CaseFile{}
+	wg.Add(3)
+	go func() { defer wg.Done(); part4(c, im4, tmp) }()
 	go func() { defer wg.Done(); part2(c, im2, cf2, tmp) }()
+	go func() { defer wg.Done(); part5(c, im5, cf5, tmp) }()
 	part1(c, im, cf, tmp)
 	wg.Wait()
 	for i := range cf2.Cases {
 		cf.Add(cf2.Cases[i], cf2.Labels[i])
 	}
+	for i := range cf5.Cases {
+		cf.Add(cf5.Cases[i], cf5.Labels[i])
+	}
 	mergeImpl(im, im2)
+	mergeImpl(im, im5)
 	mergeImpl(im, im4)
 	Must(cf.Write())
 	Must(im.Write(c.Out))
